@@ -64,6 +64,11 @@ def add(run, tier):
         return at.ExprStatement(at.Assign(left=ident, op='=', right=expr))
 
     def decide(name, tree, want, detail):
+        if want is None:            # one binding statement: {bound name: value of the stub}
+            st = tree.children()[0]
+            target = st.children()[0].identifier if type(st).__name__.endswith('VarStatement') else st.expr.left
+            stub = st.children()[0].initializer if type(st).__name__.endswith('VarStatement') else st.expr.right
+            want = {target.value: stub._hole_value}
         for fold in (False, True):
             try:
                 got = extract(tree, fold)
@@ -80,6 +85,10 @@ def add(run, tier):
     for kind in ('var', 'assign'):
         for v in vals:
             decide('O-extract[%s binding | %r]' % (kind, v), at.ES5Program([bind(kind, 'x', Hole(v))]), {'x': v}, '%s x = <%r>' % (kind, v))
+    # the bound name is the key, whatever it spells (names of global values and contextual words are legal binding names)
+    for nm_ in ('undefined', 'Infinity', 'NaN', 'get', 'set', 'eval', 'arguments', 'of', '$', '_', 'x1'):
+        for kind in ('var', 'assign'):
+            decide('O-extract[%s binding named %s]' % (kind, nm_), at.ES5Program([bind(kind, nm_, Hole(Opaque(7)))]), None, '%s %s = <opaque>' % (kind, nm_))
     # several bindings in one program / one var statement: order and last-wins as for a dict
     a, b, c = Opaque(1), Opaque(2), Opaque(3)
     decide('O-extract[program | three statements]', at.ES5Program([bind('var', 'x', Hole(a)), bind('assign', 'y', Hole(b)), bind('var', 'z', Hole(c))]),
